@@ -225,6 +225,16 @@ fn replay_inner(id: &str, hist: &[Json]) -> Json {
                     };
                     json!({"outcome": "ok", "out_valid": true, "written": [], "agree": agree, "found": found.is_some()})
                 }
+                "nametype" => {
+                    let (p, r) = (vts(&e["p"]), vts(&e["r"]));
+                    match m.types.find(&p, &r) {
+                        Some(id) => {
+                            m.types.get_mut(id).name = Some("named".to_string());
+                            json!({"outcome": "ok", "out_valid": true, "written": []})
+                        }
+                        None => json!({"outcome": "type-not-found", "out_valid": false, "written": []}),
+                    }
+                }
                 "delete" => {
                     let k = e["f"].as_u64().unwrap() as usize;
                     if let Some(f) = funcs[k] {
